@@ -115,6 +115,7 @@ static void ev_ctx(int c) {
     ev_int("c", c);
     if(z) {
         ev_int("err", zck_is_error(z));
+        ev_int("fired", shim_fired); ev_int("firederr", shim_fired_err);
         if(z->fd >= 0) ev_int("off", (long long)__real_lseek(z->fd, 0, SEEK_CUR));
     }
 }
@@ -537,6 +538,11 @@ static void run_cmd(int ntok, char **tok) {
     else if(!strcmp(op, "shim_fault")) {
         /* shim_fault <r|w|s|t> <fdslot|-1=any|-2=temp> <nth> <errno|-n for short count n> */
         int fs = (int)AI(2); shim_add_fault(A(1)[0], fs == -1 ? -1 : (fs == -2 ? -2 : fds[fs & (NSLOT-1)]), (int)AI(3), (long long)AI(4));
+    }
+    else if(!strcmp(op, "shim_fault_next")) {
+        /* shim_fault_next <r|w|s|t> <fdslot|-2=temp> <errno|-n>: the NEXT call of that kind on that descriptor */
+        int fs = (int)AI(2); int fd = fs == -2 ? -2 : fds[fs & (NSLOT-1)];
+        shim_add_fault(A(1)[0], fd, shim_calls(A(1)[0], fd) + 1, (long long)AI(3));
     }
     else if(!strcmp(op, "shim_kill")) { int fs = (int)AI(1); shim_set_kill(fs < 0 ? fs : fds[fs & (NSLOT-1)], (int)AI(2), (long long)AI(3)); }
     else if(!strcmp(op, "shim_clear")) { shim_clear(); }
